@@ -272,8 +272,10 @@ class Ref:
                 self.fuel -= 1
             try:
                 self.do(op, env)
-            except Outcome:
-                pass  # scripts swallow what their calls raise (the hooks do the same; bodies here raise Exceptions)
+            except Outcome as o:
+                if o.base:
+                    raise  # the hooks swallow Exceptions only
+                pass  # scripts swallow what their calls raise (the hooks do the same)
 
     # ---- violations -------------------------------------------------------------
     def violation(self, role, d, env):
@@ -406,7 +408,7 @@ class Ref:
         self.ev(("body", qual, recv))
         self.run_script(("body", qual), env)
         if "raise" in spec:
-            raise Outcome(("tok", self.tok("exc:", qual)))
+            raise Outcome(("tok", self.tok("exc:", qual)), base=spec["raise"] in BASE_KINDS)
         ret = spec.get("ret", "obj")
         n = self.tok("ret:", qual)
         if ret in ("obj", "list", "emptylist"):
@@ -667,10 +669,14 @@ class Ref:
         return
 
 
+BASE_KINDS = {"KeyboardInterrupt", "SystemExit", "GeneratorExit", "ProgBaseError", "CancelledError"}
+
+
 class Outcome(Exception):
-    def __init__(self, what):
+    def __init__(self, what, base=False):
         super().__init__(what)
         self.what = what
+        self.base = base  # the exception is a BaseException that is not an Exception
 
 
 class MissingArg(Exception):
